@@ -88,7 +88,8 @@ StdHeader(st, ks) ==
     IF ~Has(w.ns, p)
     THEN [res |-> "ok", ns |-> AddChild(w.ns, w.at, key.s, TblNode("header", key.sp)), cur |-> p]
     ELSE IF w.ns[p].k = "tbl" /\ w.ns[p].def = "implicit"
-    THEN [res |-> "ok", ns |-> Put(w.ns, p, [w.ns[p] EXCEPT !.def = "header", !.prom = TRUE]), cur |-> p]
+    \* (the header's own key replaces the one that created the table implicitly: ksp follows it)
+    THEN [res |-> "ok", ns |-> Put(w.ns, p, [w.ns[p] EXCEPT !.def = "header", !.prom = TRUE, !.ksp = key.sp]), cur |-> p]
     ELSE Rej(st)
 
 \* [[a.b.c]]
